@@ -18,7 +18,7 @@ REQUIRED_THEOREMS = [
     'C09_sens_order', 'C09_sens_restricted', 'C09_sens_reduced', 'C09_sens_is_derivative',
     'C09_sens_all_fixed_counterexample_before_f18d571', 'C09_sens_step_indep', 'C09_sens_reselect',
     'C09_sens_history', 'C09_reduced_history',
-    'C09_reduced_vector', 'C09_reduced_fullVector', 'C09_output_order', 'C09_output_rows',
+    'C09_reduced_vector', 'C09_reduced_fullVector', 'C09_reduced_vector_cast', 'C09_output_order', 'C09_output_rows',
     'argsortBy_isArgsort']
 RULE = ('generated SBML compartment models (2-6 states as species in 1-3 compartments or rate-rule '
         'parameters, random identifiers so that alphabetical != declaration order, 2-5 literal constants, '
@@ -76,6 +76,24 @@ def sim_record(model, params, times):
         elif call == 'run':
             log = payload['log']
     return res, st, cc, log
+
+
+def whole_number_routing(ctx, obj, expect_full, myo, n_s, whole, times, inp, tag_suffix):
+    """the same whole numbers handed over as a float64 array, an int64 array and a list of Python ints are the
+    same parameter vector: the solver must receive the same named values (fixed values included, untruncated)"""
+    n_p = len(myo)
+    for kind, vec in (('int64_array', np.asarray(whole, np.int64)), ('python_int_list', [int(v) for v in whole])):
+        res, st, cc, _ = sim_record(obj, vec, times)
+        winp = dict(inp, whole_numbers=list(map(float, whole)), handed_over_as=kind)
+        if isinstance(res, Exception) or st is None:
+            ctx.spec('C09.state_routing/number_types' + tag_suffix, False, winp, {'raised': repr(res)[:200]})
+            continue
+        ctx.spec('C09.state_routing/number_types' + tag_suffix,
+                 st == {myo[i]: float(expect_full[i]) for i in range(n_s)}, winp,
+                 {'set_state': st, 'expected': {myo[i]: float(expect_full[i]) for i in range(n_s)}})
+        ctx.spec('C09.const_routing/number_types' + tag_suffix,
+                 dict((a, b) for a, b in cc) == {myo[i]: float(expect_full[i]) for i in range(n_s, n_p)}, winp,
+                 {'set_constant': cc, 'expected': {myo[i]: float(expect_full[i]) for i in range(n_s, n_p)}})
 
 
 def perm_class(states):
@@ -179,6 +197,12 @@ def check_model(ctx, chi, model, rng, label, oracle=None, inp=None, budget=None,
              {'log': log})
     ctx.spec('C09.output_order', np.asarray(res).shape == (len(cur_outs), len(times)), inp,
              {'shape': np.asarray(res).shape})
+    # ---- whole-number vectors in every number type
+    if budget.get('number_types', True):
+        whole = rng.integers(1, 4, n_p)
+        whole_number_routing(ctx, model, whole, myo, n_s, whole, [0.0], inp, '')      # t = 0: nothing to integrate
+        if rng.random() < 0.12:
+            ctx.number_types('C09.number_types/simulate', lambda v: model.simulate(v, times), whole, inp, rtol=1e-9)
     # ---- end to end: values
     by_name = {pub[i]: float(params[i]) for i in range(n_p)}
     log_names = list(log)
@@ -326,6 +350,14 @@ def check_model(ctx, chi, model, rng, label, oracle=None, inp=None, budget=None,
                      {'set_state': st})
             ctx.spec('C09.const_routing', dict((a, b) for a, b in cc) ==
                      {myo[i]: float(full[i]) for i in range(n_s, n_p)}, rinp, {'set_constant': cc})
+        if budget.get('number_types', True):
+            whole = rng.integers(1, 4, len(free))
+            full_w = np.array(vals, float)
+            full_w[free] = whole
+            whole_number_routing(ctx, red, full_w, myo, n_s, whole, [0.0], rinp, '/reduced')
+            if rng.random() < 0.12:
+                ctx.number_types('C09.number_types/reduced_simulate', lambda v: red.simulate(v, times), whole, rinp,
+                                 rtol=1e-9)
         cs = red_request(red, pfree, times)
         mrs = ctx.model('C09.reducedsens', False, *dargs, outs, pub, mask, vals)
         ctx.agree('C09.reduced_sens_request', cs, mrs, rinp)
